@@ -66,6 +66,8 @@ POOL = [
     ("DESCRIPTION:back\\\\slash \\\\; semi", "DESCRIPTION", {}, T("back\\slash \\; semi"), "unescape"),
     ("DESCRIPTION:literal backslash-n: \\\\n", "DESCRIPTION", {}, T("literal backslash-n: \\n"), "unescape"),
     ("DESCRIPTION:percent %2C stays", "DESCRIPTION", {}, T("percent %2C stays"), "unescape"),
+    # an escaped backslash before a character that is NOT escapable in TEXT: the backslash must survive
+    ("DESCRIPTION:json {\\\\\"k\\\\\": 1} path C\\\\:x tab\\\\t", "DESCRIPTION", {}, T('json {\\"k\\": 1} path C\\:x tab\\t'), None),
     ("DTSTART:20240101T100000", "DTSTART", {}, lambda v: _dt(v, datetime(2024, 1, 1, 10)), None),
     ("DTSTART:20240101T100000Z", "DTSTART", {}, lambda v: _dt(v, datetime(2024, 1, 1, 10), 0), None),
     ("DTSTART;TZID=Europe/Berlin:20240701T100000", "DTSTART", {"TZID": "Europe/Berlin"},
@@ -281,6 +283,9 @@ def run_generated(ctx: Ctx, rnd, pid):
                 if pid == "C01":
                     for what, detail, kf in compare(comp, v["shape"], props):
                         ctx.fail(f"P:C01:first-parse-{what}", {**case, "kf": kf, "plain": plain}, detail, None)
+                    # and the accepted, well-formed calendar is stable under serialise -> parse -> serialise
+                    from vf.props.c01 import check_stability
+                    check_stability(ctx, comp, {k: case[k] for k in ("shape", "props", "ch", "provider")})
                 else:
                     probs = compare(comp, v["shape"], props)
                     try:
